@@ -26,7 +26,7 @@ RND = ['mcmc', 'msm_wt', 'msm_tt', 'msm_paths', 'tmat']
 
 
 def gen(rng, tier):
-    n = 45 if tier == 'quick' else 1500
+    n = G.budget(45) if tier == 'quick' else 1500
     for _ in range(n):
         kind = rng.choice(['zero', 'zero', 'one', 'gapped', 'mixed'])
         labs, akind = G.alphabet(rng, k=rng.randint(3, 5), kind=kind)
